@@ -186,6 +186,10 @@ func runW2(c caseC08, obs w2Observer) *ev.Failure {
 	if err := cfg.Verify(); err != nil {
 		panic("generator produced a configuration Verify rejects: " + err.Error())
 	}
+	if h := caseHash(c); h%4 == 1 {
+		// an earlier writer of the same configuration, closed or abandoned
+		priorWrite(func(s io.Writer) (io.WriteCloser, error) { return c.Cfg.W2().NewWriter2(s) }, int(1+h%9000))
+	}
 	var sink bytes.Buffer
 	w, err := c.Cfg.W2().NewWriter2(&sink)
 	if err != nil {
